@@ -350,6 +350,7 @@ type adminEnv struct {
 	app     *app.VerifApp
 	booted  queue.Store
 	boots   int64
+	dsl     func(backend string, port int) string // nil = adminDSL
 }
 
 func adminDSL(backend string, port int) string {
@@ -385,7 +386,11 @@ func (e *adminEnv) ensureBoot() error {
 	var err error
 	for try := 0; try < 50; try++ {
 		port := 20000 + int(adminBootSeq.Add(1)%13000)*3
-		a, err = app.VerifBoot(app.VerifBootOptions{Dir: filepath.Join(e.dir, "app"), ConfigText: adminDSL(e.backend, port), Store: e.sys.Store,
+		dsl := adminDSL
+		if e.dsl != nil {
+			dsl = e.dsl
+		}
+		a, err = app.VerifBoot(app.VerifBootOptions{Dir: filepath.Join(e.dir, "app"), ConfigText: dsl(e.backend, port), Store: e.sys.Store,
 			Now: func() time.Time { return time.Unix(0, e.sys.Clk).UTC() }})
 		if err == nil || !strings.Contains(err.Error(), "address already in use") {
 			break
